@@ -17,7 +17,7 @@ m=json.load(open('$d/meta.json'))
 s=set(re.findall(r'C\d\d', ' '.join(m.get('detected_by',[]))))
 s.discard('$own'); print(' '.join(sorted(s)))")
   if ! git -C /repo apply --3way "$d/patch.diff" >/dev/null 2>&1; then
-    git -C /repo checkout -q -- . ; git -C /repo reset -q
+    git -C /repo reset -q ; git -C /repo checkout -q -- .
     echo "$name: PATCH-DOES-NOT-APPLY"; bad=$((bad+1)); continue
   fi
   git -C /repo reset -q
